@@ -2,7 +2,7 @@
 # every stored seeded change against the check of the property it targets, and every harmless diff against the properties it touches
 # (scratch copies only; see seed_eval2.sh).  Output: one line per seed with the exit code (expected 1) / per harmless diff (expected 0).
 cd /verif
-for round in seeded seeded3 seeded4 seeded5; do
+for round in seeded seeded3 seeded4 seeded5 seeded6; do
   for d in $round/*/; do
     id=$(basename $d)
     [ -f $d/patch.diff ] || continue
